@@ -3,7 +3,7 @@ CONSTANTS
   MaxReq = 3
   MinTicks = 2
   MaxTicks = 2
-  Payloads = {1, 2}
+  Payloads = {1}
   Variant = "intended"
 SPECIFICATION Spec
 INVARIANTS TypeOK CallbackAtMostOnce CancelledNeverCalled ExactlyOneFate FirstAcceptableReplyWins AllFailOnlyAfterAll AllFailedCompletes TimeoutOtherwise
